@@ -75,3 +75,30 @@ def run_harnesses(report, prop, src, specs, jobs=8, timeout=1500, replayer=None)
                     o.stats["traces_validated"] = 1
         report.add(o)
     return res
+
+
+def fs_replayer(mode, ops):
+    """Native confirmation of a model-FS counterexample: replay/fsops_replay.py runs the real FsCommand::execute on
+    real files under every fault plan with <= 2 failing calls and every kill point (LD_PRELOAD shim), or with a
+    foreign fcntl lock held.  ops: harness name -> op."""
+    import json, subprocess, sys
+    from common import VERIF, scratch_root, copy_repo
+    state = {}
+
+    def rp(spec, r):
+        op = ops.get(spec["harness"])
+        if not op:
+            return None, "no native scenario"
+        if "src" not in state:
+            state["src"] = copy_repo("replay-src")
+        p = subprocess.run([sys.executable, os.path.join(VERIF, "replay", "fsops_replay.py"), state["src"], op, mode, scratch_root()],
+                           stdout=subprocess.PIPE, stderr=subprocess.PIPE, timeout=3600)
+        out = p.stdout.decode(errors="replace").strip().splitlines()
+        try:
+            j = json.loads(out[-1])
+        except Exception:
+            return None, "replay driver failed: " + (p.stderr.decode(errors="replace")[-300:] or "no output")
+        if j["n"] > 0:
+            return True, "fsops_replay.py %s %s: %d native runs, %d violate; first: %s" % (op, mode, j["runs"], j["n"], json.dumps(j["violations"][0])[:400])
+        return False, "fsops_replay.py %s %s: %d native runs (all fault plans <= 2 faults, all kill points), none violates" % (op, mode, j["runs"])
+    return rp
